@@ -19,6 +19,8 @@ not have yet is not enabled) and every delivery order to the observer, which run
   fmtovl   concurrent formats of overlapping ranges: same key same value / same key other value / other key; nested ranges
   fmtdel   format vs concurrent delete of a boundary unit / of the whole range / insert at a boundary
   fmtovw   format, then overwrite a part, then clear; concurrent clear by the other author
+  fmtins   insert_with_attributes (marks around the new units, negated marks behind them) next to / inside formatted ranges,
+           concurrent attributed inserts at one position, then a delete / format that meets those marks
   fmthole  a mark next to a hole: the format is emitted after an independent operation of the same author (the observer
            integrates the marks beyond a gap), and a deletion that waits for a withheld mark
 
@@ -38,6 +40,10 @@ def op(a, r, c, i=0, n=1, k="u", key="", v=None):
 
 def fmt(r, i, n, key="b", v="x"):
     return op("fmt", r, "t", i, n, key=key, v=v)
+
+
+def insa(r, i, n=1, key="b", v="x"):
+    return op("insa", r, "t", i, n, key=key, v=v)
 
 
 def rich_families():
@@ -75,6 +81,15 @@ def rich_families():
         s.append(([txt(2), fmt(1, 0, 2), fmt(a2, 0, 2, v="null"), fmt(1, 0, 2), fmt(a2, 1, 1, v="null")], [1, 2]))
         s.append(([txt(2), fmt(1, 0, 1), fmt(1, 1, 1), fmt(a2, 0, 2, v="null"), op("del", 1, "t", 0, 1)], [1, 2]))
     fam["fmtovw"] = s
+    # fmtins: attributed inserts
+    s = []
+    for a2 in (1, 2):
+        s.append(([txt(2), fmt(1, 0, 2), insa(a2, 1, v="null"), fmt(1, 0, 2, v="null")], [1, 2]))      # plain island inside bold, then clear
+        s.append(([txt(2), insa(1, 1), insa(2, 1), op("del", a2, "t", 1, 1)], [1, 2]))                  # concurrent attributed inserts, same place
+        s.append(([txt(1), insa(1, 1), fmt(2, 0, 1), op("del", 1, "t", 1, 1)], [1, 2]))                 # bold tail typed, head formatted, tail deleted
+        s.append(([txt(2), insa(1, 1, v="x"), insa(a2, 2, v="y"), fmt(2, 0, 2, v="null")], [1, 2]))
+        s.append(([txt(2), fmt(1, 1, 1), insa(a2, 1, key="i"), op("ins", 2, "t", 1)], [1, 2]))          # other key at the boundary, plain insert next to it
+    fam["fmtins"] = s
     # fmthole: marks beyond a gap (independent operation of the same author in between), deletion waiting for a mark
     s = []
     for a2 in (1, 2):
